@@ -121,4 +121,79 @@ theorem docSpec_status_cases {δ : Type} (prg : Prog δ) (b : Bool) (act₀ : Ac
       | evalError => simp
       | escape e => simp
 
+/-! ### the lines of the input text -/
+
+theorem splitLines_flatten (s : List Char) : (splitLines s).flatten = s := by
+  induction s with
+  | nil => rfl
+  | cons c cs ih =>
+      unfold splitLines
+      by_cases h : c = '\n'
+      · simp [h, ih]
+      · simp only [h, if_false]
+        cases hs : splitLines cs with
+        | nil => rw [hs] at ih; simp at ih; simp [← ih]
+        | cons l ls => rw [hs] at ih; simp at ih ⊢; exact ih
+
+theorem splitLines_ne_nil (s : List Char) : ∀ l ∈ splitLines s, l ≠ [] := by
+  induction s with
+  | nil => simp [splitLines]
+  | cons c cs ih =>
+      unfold splitLines
+      by_cases h : c = '\n'
+      · simp only [h, if_true, List.mem_cons]
+        rintro l (rfl | hl)
+        · simp
+        · exact ih l hl
+      · simp only [h, if_false]
+        cases hs : splitLines cs with
+        | nil => simp
+        | cons l ls =>
+            rw [hs] at ih
+            simp only [List.mem_cons]
+            rintro x (rfl | hx)
+            · simp
+            · exact ih x (by simp [hx])
+
+/-- a text without `'\n'` followed by `'\n'` is one line, whatever other characters it contains -/
+theorem splitLines_line (s : List Char) (h : '\n' ∉ s) : splitLines (s ++ ['\n']) = [s ++ ['\n']] := by
+  induction s with
+  | nil => simp [splitLines]
+  | cons c cs ih =>
+      have hc : c ≠ '\n' := fun e => h (by simp [e])
+      have hcs : '\n' ∉ cs := fun e => h (by simp [e])
+      simp [splitLines, hc, ih hcs]
+
+/-- what follows a `'\n'` has no influence on the lines before it -/
+theorem splitLines_append (a b : List Char) (h : '\n' ∉ a) :
+    splitLines (a ++ '\n' :: b) = (a ++ ['\n']) :: splitLines b := by
+  induction a with
+  | nil => simp [splitLines]
+  | cons c cs ih =>
+      have hc : c ≠ '\n' := fun e => h (by simp [e])
+      have hcs : '\n' ∉ cs := fun e => h (by simp [e])
+      simp [splitLines, hc, ih hcs]
+
+theorem splitLines_last (t : List Char) (h : '\n' ∉ t) : splitLines t = if t = [] then [] else [t] := by
+  induction t with
+  | nil => simp [splitLines]
+  | cons c cs ih =>
+      have hc : c ≠ '\n' := fun e => h (by simp [e])
+      have hcs : '\n' ∉ cs := fun e => h (by simp [e])
+      rw [splitLines]
+      simp only [hc, if_false, ih hcs]
+      by_cases he : cs = [] <;> simp [he]
+
+/-- **the k-th document is the k-th physical line**: a text made of lines `ls` (none containing `'\n'`), each terminated by
+`'\n'`, and an optional unterminated last line `t`, is cut into exactly those lines -/
+theorem splitLines_lines (ls : List (List Char)) (t : List Char) (h : ∀ l ∈ ls, '\n' ∉ l) (ht : '\n' ∉ t) :
+    splitLines (ls.flatMap (· ++ ['\n']) ++ t) = ls.map (· ++ ['\n']) ++ (if t = [] then [] else [t]) := by
+  induction ls with
+  | nil => simpa using splitLines_last t ht
+  | cons l ls ih =>
+      have hl : '\n' ∉ l := h l (by simp)
+      have := splitLines_append l (ls.flatMap (· ++ ['\n']) ++ t) hl
+      simp only [List.flatMap_cons, List.append_assoc, List.map_cons, List.cons_append, List.nil_append] at this ⊢
+      rw [this, ih (fun x hx => h x (by simp [hx]))]
+
 end Cel.Cli
